@@ -78,6 +78,20 @@ def untraced():
     return contextlib.nullcontext()
 
 
+def realize(x):
+    """ask the solver for a concrete value of x (CrossHair then enumerates the
+    alternatives on later paths): used for bounded ints that are compared many
+    times, where one decision per value is cheaper than one per comparison"""
+    try:
+        from crosshair.tracers import is_tracing
+        if is_tracing():
+            from crosshair.core import realize as _r
+            return _r(x)
+    except Exception:
+        pass
+    return x
+
+
 class ND:
     """Nondeterministic choices drawn from a vector of solver variables."""
 
@@ -97,3 +111,25 @@ class ND:
 
     def left(self):
         return len(self.vec) - self.i
+
+
+class _CheapTraceback:
+    """cut: billiard.einfo formats the traceback text with the traceback module,
+    which costs thousands of solver queries under the tracer although nothing
+    symbolic is formatted; C12 owns formatting (harness/c12.py runs it for real)"""
+
+    def __init__(self, real):
+        self._real = real
+
+    def __getattr__(self, name):
+        return getattr(self._real, name)
+
+    def format_exception(self, *a, **k):
+        return ['<traceback text>']
+
+
+def cheap_einfo():
+    import billiard.einfo as be
+    import traceback as _tb
+    if not isinstance(be.traceback, _CheapTraceback):
+        be.traceback = _CheapTraceback(_tb)
